@@ -23,6 +23,7 @@ type Instance struct {
 // Scenario is a closed concurrent (or environment-choice) program.
 type Scenario struct {
 	Name       string
+	Describe   string // human readable description of the program (goes into evidence samples)
 	PoolChoice bool
 	LogEvents  bool
 	// Build is called once per execution, after the scheduler is installed (setup phase: shim
@@ -143,7 +144,7 @@ func Explore(c *Ctx, r *Result, part string, sc *Scenario, o ExploreOpts) {
 			}
 			r.Outcome(sc.Name + ": " + x.outcome)
 			if execs <= 2 {
-				r.Sample(map[string]any{"scenario": sc.Name, "choices": choicesOf(x.points), "outcome": x.outcome})
+				r.Sample(map[string]any{"scenario": sc.Name, "program": sc.Describe, "schedule (choice at every point with >1 enabled thread)": choicesOf(x.points), "outcome": x.outcome})
 			}
 			if x.violation != "" {
 				full := choicesOf(x.points)
@@ -185,11 +186,7 @@ func Explore(c *Ctx, r *Result, part string, sc *Scenario, o ExploreOpts) {
 	}
 	// distinct non-trivial: executions are distinct by construction (distinct choice sequences);
 	// non-trivial = at least one context switch away from an enabled thread or a data choice != 0
-	r.Count(sc.Name+".executions", execs)
-	r.Count(sc.Name+".max_points", 0)
-	if int64(maxPts) > r.Counters[sc.Name+".max_points"] {
-		r.Counters[sc.Name+".max_points"] = int64(maxPts)
-	}
+	_ = maxPts
 	r.States += points // visited (execution, position) pairs
 }
 
